@@ -94,6 +94,35 @@ def sources(pairs, model, mds_pairs, args, ntu=16):
 
 def kv(s): return dict(x.split('=') for x in s.split() if '=' in x)
 
+CV = {'': '', 'c': 'const ', 'v': 'volatile ', 'cv': 'const volatile '}
+def acc_cv_probes(cfg, rep):
+    """default_accessor<T> from default_accessor<U> and mdspan<T,...> from mdspan<U,...> for every combination of cv-qualifiers on both
+    sides (and another base type): participates iff U(*)[] -> T(*)[] (a qualification conversion: no qualifier dropped), always implicit"""
+    pairs = [(db, dq, sb, sq) for dq in CV for sq in CV for (db, sb) in ((0, 0), (1, 1))] + [(1, dq, 0, sq) for dq in ('', 'c', 'cv') for sq in ('', 'v')]
+    base = {0: 'int', 1: 'double'}
+    T = lambda b, q: CV[q] + base[b]
+    body = []
+    for k, (db, dq, sb, sq) in enumerate(pairs):
+        D, S = T(db, dq), T(sb, sq)
+        body.append('  out[%d] = std::string("ctor=") + num(std::is_constructible_v<md::default_accessor<%s>, const md::default_accessor<%s>&>) + " conv=" + num(std::is_convertible_v<const md::default_accessor<%s>&, md::default_accessor<%s>>)'
+                    ' + " mctor=" + num(std::is_constructible_v<md::mdspan<%s, md::dextents<int, 2>>, const md::mdspan<%s, md::dextents<int, 2>>&>) + " mconv=" + num(std::is_convertible_v<const md::mdspan<%s, md::dextents<int, 2>>&, md::mdspan<%s, md::dextents<int, 2>>>);' % (k, D, S, S, D, D, S, S, D))
+    src = [('c16acc.cpp', '#include "probe.hpp"\nusing namespace vh;\nint main() { std::vector<std::string> out(%d);\n%s\n  for (auto& s : out) puts(s.c_str());\n}\n' % (len(pairs), '\n'.join(body)))]
+    try: exe, secs, cached = C.cxx_build('c16acc', src, config=cfg)
+    except C.BuildError as e:
+        rep.broke(dict(correspondence='C16 accessor cv probe build (%s)' % cfg, why=str(e), log=e.log[-2500:])); return
+    out = C.run([exe]).stdout.split('\n')
+    mout = C.driver(['c16 acccv d=%d%s s=%d%s' % (db, dq, sb, sq) for db, dq, sb, sq in pairs])
+    for (db, dq, sb, sq), xi, xm in zip(pairs, out, mout):
+        rep.cov['evaluations'] += 1
+        want = db == sb and set(sq) <= set(dq); w = '1' if want else '0'
+        d = kv(xi); pub = dict(target='default_accessor<%s>' % T(db, dq), source='default_accessor<%s>' % T(sb, sq), config=cfg)
+        if d.get('ctor') != w or d.get('conv') != w:
+            rep.violation(dict(kind='default_accessor-conversion-%s-although-U(*)[]-%s-to-T(*)[]' % ('participates' if d.get('ctor') == '1' else 'does-not-participate', 'converts' if want else 'does-not-convert'), impl=xi, **pub)); continue
+        if d.get('mctor') != w or d.get('mconv') != w:
+            rep.violation(dict(kind='mdspan-conversion-differs-from-(mapping-converts-and-accessor-converts)', impl=xi, specified='mctor=%s mconv=%s' % (w, w), **pub)); continue
+        if ' '.join(xi.split()[:2]) != xm: rep.broke(dict(correspondence='C16 accessor cv rule (Model/ElemCv.lean)', impl=xi, model=xm, **pub))
+        if want and (dq != sq): rep.nontrivial(('acccv', db, dq, sb, sq))
+
 def mandate_probes(hard_pairs, cfg, rep):
     """programs the specification rejects by a Mandates clause must not compile: each sampled pair is
     compiled alone (-fsyntax-only) and must be rejected"""
@@ -216,6 +245,7 @@ def check(prop, tier, seed, replay=None):
         rep.notes.setdefault('probe_build_s', {})[cfg] = round(secs, 1)
         hard = [p for p, m in zip(pairs, model) if m.get('hard') == '1' and m.get('ctor') == '1']
         mandate_probes(random.Random(seed).sample(hard, min(len(hard), 16 if not thorough else 80)), cfg, rep)
+        acc_cv_probes(cfg, rep)
         out = C.run([exe]).stdout.split('\n'); k = 0
         for (d, s), m, ml in zip(pairs, model, mlines):
             xi = kv(out[k]); k += 1; rep.cov['evaluations'] += 1; rep.cov['traces_validated_against_impl'] += 1
